@@ -509,6 +509,15 @@ func genericRules(x *vs.Exec, legitBlocked func(b vs.Blocked) bool) []Viol {
 	if x.Outcome == "panic" {
 		v = append(v, Viol{"G1", "panic: " + firstLine(x.Detail) + " at " + panicSite(x.Stack)})
 	}
+	// G3: the channel handed to the library is used within its contract in every scenario of every
+	// property (a Channel that is safe for one sender only would corrupt or lose messages otherwise)
+	Hit("G3")
+	for _, e := range x.Log {
+		if e.K == "overlap" {
+			v = append(v, Viol{"G3", fmt.Sprintf("channel contract broken on %s: %s calls in progress at once (messages on a one-sender channel would be corrupted or lost)", e.Arg(0), e.Arg(1))})
+			break
+		}
+	}
 	Hit("G2")
 	if x.Outcome == "deadlock" {
 		var bl []string
